@@ -425,7 +425,7 @@ Qed.
 Lemma spare_allb_okb s p (X : cset) : spare_allb t s p X = true -> spare_okb t s p X = true.
 Proof.
   unfold spare_allb, spare_okb. rewrite !forallb_forall. intros H d Hd. specialize (H d Hd).
-  destruct (anc t p d); cbn [negb orb] in *; [|reflexivity]. rewrite H. apply orb_true_r.
+  rewrite H. apply orb_true_r.
 Qed.
 
 (* ... and so does a reinstatement (Reserve), since it carries the same test *)
